@@ -256,6 +256,25 @@ def check_stream_class(chk, db, rect, kind, rule, rule_status):
     prims = {'Read', 'Skip'} if kind == 'reader' else {'Write', 'Skip'}
     table = OBSERVABLE_IN if kind == 'reader' else OBSERVABLE_OUT
     state_ops = {'bad', 'eof', 'fail', 'good', 'gcount', 'rdstate'}
+    # the advisory primitive of an unbounded transport (Ensure / Prepare) cannot know how much will arrive: it must not touch the
+    # stream (peek() sets eofbit, which is sticky) and must succeed - in particular for a demand of 0 bytes at the end of the data
+    for m in one_per_pattern(methods, {'Ensure' if kind == 'reader' else 'Prepare'}):
+        where = facts.site(m)
+        label = '%s::%s' % (rect.replace('nop::', ''), m['n'])
+        try:
+            paths = symx.paths_of(db, m, lambda callee, call: False)
+        except symx.Unsupported as e:
+            chk.unanalysable(rule, where, 'cannot summarise %s: %s' % (label, e))
+            continue
+        why = []
+        for p in paths:
+            touched = [e.name for e in p.events if e.kind == 'call' and e.obj.startswith('f:')]
+            if touched:
+                why.append('touches the stream (%s)' % ', '.join(sorted(set(touched))))
+            if not (isinstance(p.ret, StatusVal) and p.ret.kind == 'ok'):
+                why.append('can fail (%r)' % (p.ret,))
+        chk.decide(not why, rule, where, '%s: %s' % (label, '; '.join(sorted(set(why))) if why else 'no effect on the stream, always succeeds'),
+                   function=ir.fn_label(m))
     for m in one_per_pattern(methods, prims):
         where = facts.site(m)
         label = '%s::%s(%s)' % (rect.replace('nop::', ''), m['n'], ', '.join(p['t'] for p in m['params']))
